@@ -161,6 +161,9 @@ def connectivity_matrix_connect(
 
     # get connection pairs from connectivity matrix
     from_idx, to_idx = np.where(connectivity_matrix)
+    if len(from_idx) == 0:
+        # No `True` entry: there is nothing to connect.
+        return
     pre_cell_inds = pre_cell_inds[from_idx]
     post_cell_inds = post_cell_inds[to_idx]
 
